@@ -134,6 +134,9 @@ def gen_meta(rng, ok):
 def run(chk):
     cases, n_exh = gen(chk)
     corpus = GC.load_corpus('C15')
+    for c in corpus:        # value tokens must be canonical float.hex() spellings
+        if c['kind'] == 'history':
+            c['ops'] = [[a, b, float.fromhex(t).hex()] for a, b, t in c['ops']]
     cases = corpus + cases
     for c in cases:
         chk.count('kind:' + c['kind'])
